@@ -147,7 +147,7 @@ SPECS = {
 
 
 def jobs(tier):
-    N = 3 if tier == "quick" else 5
+    N = 3 if tier == "quick" else 6
     M = c08.MemberShape
     out = []
 
@@ -195,7 +195,7 @@ ASSUMPTIONS = ["numpy/pandas environment model validated per path against the re
 
 
 def bounds(tier):
-    return {"series_length": "0..3" if tier == "quick" else "0..5", "missing_placements": "all 2^n (free NaN flag per element, "
+    return {"series_length": "0..3" if tier == "quick" else "0..6", "missing_placements": "all 2^n (free NaN flag per element, "
             "independently for data, depth, lon, lat)", "carriers": ["ndarray+NaN", "list+None", "masked array"]}
 
 
